@@ -509,13 +509,15 @@ def program_equivalence(prog1, prog2, compare_params=True, atol=1e-6, rtol=0):
     return nx.is_isomorphic(circuit[0], circuit[1], node_match)
 
 
-def validate_gate_parameters(compiled, device=None):
+def validate_gate_parameters(compiled, device=None, validate_values=True):
     """Validates gate parameters against a device spec.
 
     Args:
         compiled (sf.Program, blackbird.BlackbirdProgram): program to validate
         device (sf.Device): Device containing device specification. If ``None``, the device is
             extracted from the compile info (if program is a compiled ``sf.Program`` object).
+        validate_values (bool): If ``False``, only the match between the circuit and the device
+            layout is validated, and not the values of the gate parameters.
 
     Returns:
         gate_parameters (dict): validated gate parameters for the job as extracted from
@@ -561,7 +563,8 @@ def validate_gate_parameters(compiled, device=None):
         )
 
     # raises ValueError if parameters are invalid
-    device.validate_parameters(**user_parameters)
+    if validate_values:
+        device.validate_parameters(**user_parameters)
 
     return user_parameters
 
